@@ -516,9 +516,15 @@ class Parser:
         return StringLiteral(value=self._decode_string_literal(stream.current))
 
     def parse_integer_literal(self, stream: TokenStream) -> FilterExpression:
+        value = stream.current.value
+        if "e" not in value and "E" not in value:
+            # Without an exponent, going through float would lose precision
+            # for integers that need more than 53 bits.
+            return IntegerLiteral(value=int(value))
+
         # Convert to float first to handle scientific notation.
         try:
-            return IntegerLiteral(value=int(float(stream.current.value)))
+            return IntegerLiteral(value=int(float(value)))
         except OverflowError as err:
             raise JSONPathSyntaxError(
                 "integer literal out of range", token=stream.current
